@@ -29,8 +29,26 @@ CHECKS.update({
          "For each document every method x path (existing or not) and every id (known or not) is queried through the four variants; results compared as sets with a reference model, callback arguments and panics observed.", "7/C15"),
  "C16": ("race", "exploration", "Go race detector (-race build) over seeded concurrent getter workloads on a shared Spec + recorded-history check against sequential answers + before/after deep comparison of the document",
          "The real analyzer is driven by 2/4/16 goroutines (barrier-released, seeded random getter sequences, same-getter and first-use rounds on fresh analyzers, concurrent New) under the race detector; every recorded answer is compared with the sequential one; document immutability and map-copy safety are checked by serialization + reflect.DeepEqual against a twin. Evidence reports overlapping getter pairs actually observed.", "7/C16"),
+ "C01": ("flatten", "exploration", "runtime monitor: bisimulation of the $ref-unfolded input bundle vs the output document after every successful Flatten (own resolver, coinductive schema-tree equality), hooks H2 for phase signatures",
+         "Every successful Flatten over the systematic feature matrix of W and seeded random compositions, under every applicable option set, is judged by an independent bisimulation oracle over paths/operations/parameters/responses/headers/definitions.", "7/C01"),
+ "C02": ("flatten", "exploration", "runtime monitor: independent walk of every output document checking the canonical form of each remaining $ref",
+         "After every successful Minimal/full Flatten the output is walked: no $ref in parameters/responses/path items/simple items; every schema $ref decodes to ['definitions', existing name].", "7/C02"),
+ "C03": ("flatten", "exploration", "runtime monitor: scan of every schema position of the fully flattened output with an independent statement of 'complex', plus case-folded name-set comparison and bisimulation of pre-existing definitions",
+         "After every successful full Flatten no inline object-with-properties/allOf/tuple may remain outside definition bodies; created names never collide (case-insensitively); existing definitions keep their meaning.", "7/C03"),
+ "C04": ("flatten", "exploration", "runtime monitor: returned error, recovered panics, loop/recursion budgets (hooks H1/H3) and process-level fatal/hang attribution on every Flatten of a W bundle",
+         "Flatten must succeed on every generated W bundle under every applicable option set; failures are shrunk and attributed (error class, panic site, loop site).", "7/C04"),
+ "C05": ("flatten", "exploration", "runtime monitor: walk of the expanded output + bisimulation + own $ref-graph cycle test on the input + byte comparison across repeats and key-order permutations",
+         "After every successful Expand the remaining $refs must be canonical, meaning preserved; for inputs whose $ref graph is acyclic no $ref may remain and the bytes must be reproducible.", "7/C05"),
+ "C06": ("flatten", "exploration", "runtime monitor: walk of the output after RemoveUnused (decoded targets vs decoded definition keys), bisimulation of operations, loop-iteration hook H1",
+         "After every successful Flatten with RemoveUnused: shared sections empty, every definition used, nothing dangling, operations unchanged, removal loop within its logical budget; name classes needing pointer/URL escaping are boosted.", "7/C06"),
+ "C07": ("flatten", "exploration", "runtime monitor: byte comparison of outputs across repeated fresh runs (map-iteration orders) x key-order permutations of the input files (map insertion histories)",
+         "Each bundle/option set is flattened P x R times (quick 3x4, thorough 6x12) from permuted JSON texts; any differing byte or success/failure flip is a violation; evidence counts cases where map orders demonstrably varied.", "7/C07"),
+ "C08": ("flatten", "exploration", "runtime monitor: second Flatten of every output (reloaded from bytes, and on the same object with the same analyzer) compared byte for byte",
+         "Idempotence is observed on every successful Minimal/full Flatten of the W workload in both re-entry variants.", "7/C08"),
+ "C10": ("flatten", "exploration", "runtime monitor: every public getter of the Spec passed to Flatten compared with a fresh analysis of the output over the full argument domain; last mutating phase from hook H2",
+         "After every successful Flatten the passed-in analyzer is queried exhaustively over its argument domain and compared with analysis.New(output); evidence lists which phase mutated last per case.", "7/C10"),
 })
-PENDING = {}
+PENDING = {"C09": "failsafe engine (W+ workload, load-fault enumeration through spec.PathLoader) is the next build step"}
 
 def main():
     props = [json.loads(l) for l in open(os.path.join(HERE, "properties.jsonl"))]
